@@ -86,7 +86,7 @@ Definition u_pre (u : upc) : bool := match u with UC CLock => true | _ => false 
 Definition r_pre (r : rpc) : bool :=
   match r with RClose CLock => true | RClose _ => false | _ => true end.
 Definition r_can_reply (r : rpc) : nat :=
-  match r with RNone | RRead | RReply | RClassify ROther | RHand _ => 1 | _ => 0 end.
+  match r with RNone | RRead | RReply | RClassify ROther | RHand _ | RReplyF => 1 | _ => 0 end.
 Definition r_late (r : rpc) : bool :=
   match r with RClose _ | RExit | RDone => true | _ => false end.
 Definition r_none (r : rpc) : bool := match r with RNone => true | _ => false end.
@@ -121,9 +121,9 @@ Proof. apply forallb_sum0. intros [[]| |]; cbn; congruence. Qed.
 Lemma pre_sum_s l : forallb u_pre l = true -> list_sum (map u_s l) = 0.
 Proof. apply forallb_sum0. intros [[]| |]; cbn; congruence. Qed.
 Lemma r_pre_w r : r_pre r = true -> r_w r = 0.
-Proof. destruct r as [| | | |[]| | |]; cbn; congruence. Qed.
+Proof. destruct r as [| | | |[]| | | |]; cbn; congruence. Qed.
 Lemma r_pre_s r : r_pre r = true -> r_s r = 0.
-Proof. destruct r as [| | | |[]| | |]; cbn; congruence. Qed.
+Proof. destruct r as [| | | |[]| | | |]; cbn; congruence. Qed.
 
 Lemma inv0 d v : Inv (cfg0 d v).
 Proof. constructor; cbn; intros; try congruence; try lia; auto. Qed.
@@ -175,6 +175,9 @@ Proof.
   - (* ERecvHs *)
     destruct r; cbn; try (constructor; cbn; auto; fail).
     destruct sock_closed; constructor; cbn in *; auto; try congruence.
+  - (* ERecvCNF *)
+    destruct r; cbn; try (constructor; cbn; auto; fail).
+    destruct sock_closed; constructor; cbn in *; auto; try congruence.
 Qed.
 
 Lemma inv_hs b g : Inv g -> Inv (exec (StepHs b) g).
@@ -203,7 +206,7 @@ Lemma inv_reader g : Inv g -> Inv (exec StepReader g).
 Proof.
   intros [H1 H2 H3 H4 H5 H6 HO HO2 H7 H8 H9 H10 H11 H12].
   destruct g as [c h r l]. destruct c. unfold winners, sockers in *. cbn in *.
-  destruct r as [| | |k|p| | |f]; cbn.
+  destruct r as [| | |k|p| | |f|]; cbn.
   - constructor; cbn; auto.
   - (* RRead *)
     destruct can_rd; [|destruct sock_closed]; constructor; unfold winners, sockers; cbn in *; auto;
@@ -246,6 +249,9 @@ Proof.
   - constructor; cbn; auto.
   - (* RHand *)
     destruct f; constructor; unfold winners, sockers; cbn in *; auto; try congruence; try lia.
+  - (* RReplyF *)
+    destruct wr_blk, sock_closed, cn_once; cbn;
+      constructor; unfold winners, sockers; cbn in *; auto; try congruence; try lia.
 Qed.
 
 Lemma inv_user i g : Inv g -> Inv (exec (StepUser i) g).
@@ -413,7 +419,7 @@ Lemma reader_step_mono r c :
   est c' = est c /\ cn_close c <= cn_close c' /\ (closed c = true -> closed c' = true) /\
   total c <= total c' /\ (sock_closed c = false -> once_sent c -> once_sent c') /\ wr_blk c' = wr_blk c.
 Proof.
-  destruct r as [| | |k|p| | |f]; [| | |destruct k|destruct p as [|w i|w i| |e| |]| | |]; mono.
+  destruct r as [| | |k|p| | |f|]; [| | |destruct k|destruct p as [|w i|w i| |e| |]| | | |]; mono.
   all: unfold once_sent, total in *; cbn in *; try lia; auto.
   all: try (rewrite H, H2 in *; discriminate).
 Qed.
@@ -616,7 +622,7 @@ Proof.
       constructor; cbn in *; auto; try (apply forallb_upd; auto);
       try exact J2; try (intros _; split; [exact P3|exact P1]);
       try (cbn; destruct (est c); reflexivity).
-  - destruct r as [| | |k|p| | |f]; [| | |destruct k|destruct p as [|w i|w i| |e| |]| | |]; cbn;
+  - destruct r as [| | |k|p| | |f|]; [| | |destruct k|destruct p as [|w i|w i| |e| |]| | | |]; cbn;
       rewrite ?andb_false_r; unfold send_cn_reply;
       repeat match goal with
              | |- context [if ?b then _ else _] => destruct b eqn:?
@@ -800,7 +806,7 @@ Proof.
     destruct (find_wait _ EU P) as (i & E).
     destruct (i_open _ I Ec) as (A & _). cbn in A.
     pose proof (forallb_nth _ _ _ _ A E) as X. discriminate. }
-  destruct r as [| | |k|p| | |f] eqn:Er;
+  destruct r as [| | |k|p| | |f|] eqn:Er;
     try (exists StepReader; cbn; auto; fail).
   - (* RNone *)
     pose proof (i_rd _ I) as Hrd. cbn in Hrd.
@@ -866,7 +872,7 @@ Proof.
         -- specialize (S UDone E). unfold mu; cbn in *; lia.
     + apply negb_true_iff in En. cbn. rewrite En. specialize (S UDone E). unfold mu; cbn in *; lia.
     + discriminate.
-  - destruct r as [| | |k|p| | |f]; cbn; try discriminate.
+  - destruct r as [| | |k|p| | |f|]; cbn; try discriminate.
     + intro En. destruct (can_rd c); [unfold mu; cbn; lia|].
       cbn in En. rewrite En. unfold mu; cbn; lia.
     + intro En. destruct (wr_blk c), (can_rd c), (sock_closed c); cbn in *; try discriminate;
@@ -876,9 +882,10 @@ Proof.
         try destruct (e && false); unfold mu; cbn; lia.
     + intros _. unfold mu; cbn; lia.
     + intros _. unfold mu; cbn; lia.
+    + intros _. unfold mu; cbn; lia.
   - destruct h as [| | | |x|x]; cbn; try discriminate.
     + intros _. destruct (dual c); unfold mu; cbn; [lia|].
-      destruct r as [| | |k|p| | |f]; cbn; try lia; try (destruct k; lia); try (destruct p; cbn; lia).
+      destruct r as [| | |k|p| | |f|]; cbn; try lia; try (destruct k; lia); try (destruct p; cbn; lia).
     + intro En. destruct (hctx c); [unfold mu; cbn; lia|].
       cbn in En. rewrite En. unfold mu; cbn; lia.
     + destruct b.
@@ -1057,7 +1064,7 @@ Proof.
     + destruct (hs_open c); constructor; cbn; auto.
     + destruct (hs_open c); constructor; cbn; auto.
     + constructor; cbn; auto.
-  - destruct r as [| | |k|p| | |f]; cbn.
+  - destruct r as [| | |k|p| | |f|]; cbn.
     + constructor; cbn; auto.
     + destruct (can_rd c) eqn:Ec; [|destruct (sock_closed c)]; constructor; cbn; auto;
         intros; try discriminate; try congruence; auto; fin.
@@ -1082,6 +1089,8 @@ Proof.
     + constructor; cbn; auto.
     + destruct f; constructor; cbn; auto; try discriminate; try congruence;
         unfold put_first_err; cbn; destruct (first_err c) eqn:Ef; intros; try discriminate; try congruence; auto; fin.
+    + unfold send_cn_reply.
+      destruct (cn_once c); constructor; cbn; auto; try discriminate; try congruence; fin.
   - destruct h as [| | | |x|x]; cbn.
     + constructor; cbn; auto.
     + destruct (dual c); constructor; cbn; auto; try discriminate; try congruence; fin.
@@ -1118,6 +1127,8 @@ Proof.
     + constructor; cbn; auto.
     + constructor; cbn; auto.
     + constructor; cbn; auto.
+    + destruct r; cbn; try (constructor; cbn; auto; fail).
+      destruct (sock_closed c); constructor; cbn; auto; try discriminate; try congruence; fin.
     + destruct r; cbn; try (constructor; cbn; auto; fail).
       destruct (sock_closed c); constructor; cbn; auto; try discriminate; try congruence; fin.
 Qed.
@@ -1333,3 +1344,148 @@ Proof. intros g. apply quiet_closed_settled, inv_reachable. Qed.
 
 Example open_established_reachable : open_established (run ops_established (cfg0 false false)).
 Proof. vm_compute. repeat split; reflexivity. Qed.
+
+(* ================================================================== the reply cannot be written *)
+
+(* conn.closed is never taken back, by any step of any goroutine or of the environment *)
+Lemma closed_exec o g : closed (cn g) = true -> closed (cn (exec o g)) = true.
+Proof.
+  destruct g as [c h r l]. destruct o as [|i| |b|e]; cbn; auto.
+  - destruct (nth_error l i) as [u|]; auto.
+    pose proof (user_step_mono u c) as M. destruct (user_step u c). cbn in *. tauto.
+  - pose proof (reader_step_mono r c) as M. destruct (reader_step r c). cbn in *. tauto.
+  - pose proof (hs_step_mono b h r c) as M. destruct (hs_step b h r c) as [[? ?] ?]. cbn in *.
+    destruct M as (_ & _ & M & _). congruence.
+  - pose proof (env_step_mono e (mkCfg c h r l)) as M. cbn in M.
+    destruct M as (_ & _ & M & _). intro C. rewrite M. exact C.
+Qed.
+
+(* [closing n g]: conn.closed is signalled, or the read loop holds a received close_notify / fatal alert
+   and is at most n of its own steps away from the closeLock region of close(false) *)
+Definition closing (n : nat) (g : cfg) : Prop :=
+  closed (cn g) = true \/ exists k, togo (rd g) = Some k /\ k <= n.
+
+(* a read loop that holds the alert never waits: its step is enabled whatever the transport does *)
+Lemma togo_enabled g k : togo (rd g) = Some k -> op_enabled StepReader g = true.
+Proof. destruct g as [c h r l]. cbn. destruct r as [| | |[]|[]| | | |]; cbn; auto; discriminate. Qed.
+
+(* one step of the read loop brings it one step nearer *)
+Lemma closing_reader n g : closing (S n) g -> closing n (exec StepReader g).
+Proof.
+  intros [C|(k & T & L)]; [left; apply closed_exec; exact C|].
+  destruct g as [c h r l]. cbn in *.
+  destruct r as [| | |[]|[]| | | |]; cbn in *; try discriminate; inversion T; subst.
+  - right. exists 1. split; auto. lia.
+  - right. exists 1. split; auto. lia.
+  - left. reflexivity.
+  - right. exists 2. split; auto. lia.
+Qed.
+
+(* no step of another goroutine and no event of the environment takes the alert away from it *)
+Lemma closing_other n o g :
+  Inv g -> o <> StepReader -> closing n g -> closing n (exec o g).
+Proof.
+  intros I No [C|(k & T & L)]; [left; apply closed_exec; exact C|].
+  destruct g as [c h r l]. cbn in T.
+  destruct o as [|i| |b|e]; cbn.
+  - right. exists k. auto.
+  - destruct (nth_error l i) as [u|]; [|right; exists k; auto].
+    destruct (user_step u c). right. exists k. auto.
+  - congruence.
+  - (* HandshakeContext: it (re)starts the read loop only before the loops exist *)
+    pose proof (i_pre _ I) as P. pose proof (i_rd _ I) as R. cbn in P, R.
+    destruct h as [| | | |x|x]; cbn.
+    + right. exists k. auto.
+    + specialize (P eq_refl). rewrite P in R. destruct r; cbn in *; discriminate.
+    + specialize (P eq_refl). rewrite P in R. destruct r; cbn in *; discriminate.
+    + destruct b; [destruct (first_err c)|destruct (hctx c)|destruct (est c)]; right; exists k; auto.
+    + destruct r as [| | |[]|[]| | | |]; cbn in *; try discriminate; right; exists k; auto.
+    + right. exists k. auto.
+  - (* the environment acts on a read loop blocked in the socket read only *)
+    pose proof (i_pre _ I) as P. pose proof (i_rd _ I) as R. cbn in P, R.
+    destruct e; cbn;
+      try (destruct h; cbn); try (destruct (est c)); try (destruct (installed c));
+      try (right; exists k; cbn; auto; fail);
+      try (specialize (P eq_refl); rewrite P in R; destruct r; cbn in *; discriminate);
+      destruct r as [| | |[]|[]| | | |]; cbn in *; try discriminate;
+      try (right; eexists; cbn; split; [reflexivity|]; inversion T; subst; lia).
+Qed.
+
+Lemma closing_run ops : forall g n,
+  Inv g -> closing n g -> n <= reader_steps ops -> closed (cn (run ops g)) = true.
+Proof.
+  induction ops as [|o ops IH]; intros g n I C L; cbn in *.
+  - destruct C as [C|(k & T & Lk)]; auto.
+    destruct (rd g) as [| | |[]|[]| | | |]; cbn in T; try discriminate; inversion T; subst; lia.
+  - destruct o as [|i| |b|e];
+      try (apply (IH _ n); [apply inv_exec; auto|apply closing_other; auto; discriminate|exact L]).
+    destruct n as [|n].
+    + apply (IH _ 0); [apply inv_exec; auto| |lia].
+      destruct C as [C|(k & T & Lk)]; [left; apply closed_exec; exact C|].
+      destruct (rd g) as [| | |[]|[]| | | |]; cbn in T; try discriminate; inversion T; subst; lia.
+    + apply (IH _ n); [apply inv_exec; auto|apply closing_reader; auto|lia].
+Qed.
+
+Lemma run_app ops1 ops2 g : run (ops1 ++ ops2) g = run ops2 (run ops1 g).
+Proof. revert g; induction ops1 as [|o ops1 IH]; intro g; cbn; auto. Qed.
+
+(* THE PEER'S CLOSE SURVIVES A REPLY THAT CANNOT BE WRITTEN.  For every history ops1 after which the
+   read loop holds the peer's close_notify while the transport refuses the write of the reply, and
+   for every continuation ops2 (any interleaving of Close() callers, the HandshakeContext goroutine
+   and environment events) in which the read loop performs three steps - it is enabled all along -:
+   conn.closed is signalled, a pending and every later Read finds a ready branch and (without an
+   expired read deadline) every ready branch is io.EOF, Write gets a closed-class error, no
+   close_notify record went out for the consumed Once only because the socket refused it, and the
+   internal steps alone lead to a configuration in which no goroutine of the connection is left. *)
+Theorem peer_close_survives_reply_write_failure d v ops1 ops2 :
+  let g1 := run ops1 (cfg0 d v) in
+  rd g1 = RReplyF ->
+  op_enabled StepReader g1 = true /\
+  (3 <= reader_steps ops2 ->
+   let g2 := run ops2 g1 in
+   closed (cn g2) = true /\
+   In KEof (read_ready (cn g2)) /\
+   (rd_dl (cn g2) = false -> forall k, In k (read_ready (cn g2)) -> k = KEof) /\
+   In KClosed (write_ready (cn g2)) /\
+   (wr_dl (cn g2) = false -> forall k, In k (write_ready (cn g2)) -> close_class k = true) /\
+   exists ops3, Forall (fun o => internal o = true) ops3 /\ quiet (run ops3 g2) = true).
+Proof.
+  intros g1 R. split; [apply (togo_enabled g1 3); rewrite R; reflexivity|].
+  intros L g2.
+  assert (C : closed (cn g2) = true).
+  { apply (closing_run ops2 g1 3); auto; [apply inv_reachable|].
+    right. exists 3. rewrite R. cbn. auto. }
+  destruct (read_unblocks _ C) as (R1 & R2). destruct (write_unblocks _ C) as (W1 & W2).
+  repeat split; auto.
+  unfold g2, g1. rewrite <- run_app. apply close_returns_reachable.
+  unfold pending. rewrite run_app. fold g1. fold g2. rewrite C. reflexivity.
+Qed.
+
+(* the event is reachable: established, the peer closes, the reply cannot be written - and the whole
+   run of the read loop: closed, Read = EOF, socket closed once, no record, nothing left *)
+Definition ops_peer_close_reply_refused : list op :=
+  ops_established ++ [Env ERecvCNF] ++ repeat StepReader 11.
+
+Example peer_close_reply_refused :
+  rd (run (ops_established ++ [Env ERecvCNF]) (cfg0 false false)) = RReplyF /\
+  let g := run ops_peer_close_reply_refused (cfg0 false false) in
+  closed (cn g) = true /\ cn_reply (cn g) = 0 /\ cn_close (cn g) = 0 /\ cn_once (cn g) = true /\
+  dec_closed (cn g) = true /\ sock_closes (cn g) = 1 /\ quiet g = true /\ read_ready (cn g) = [KEof; KEof].
+Proof. vm_compute. repeat split; auto. Qed.
+
+(* REFUTED VARIANT (seeded change C16g): when the write error of the reply replaces the peer-closed
+   classification ([reader_step_sw]), the same history leaves the connection open for ever: the read
+   loop is back in the socket read, no internal step is enabled, conn.closed is not signalled and a
+   Read has no ready branch (it blocks for ever), however many steps the read loop is given. *)
+Theorem peer_close_survives_reply_write_failure_refuted :
+  exists ops1 ops2,
+    rd (run_sw ops1 (cfg0 false false)) = RReplyF /\ 3 <= reader_steps ops2 /\
+    let g2 := run_sw ops2 (run_sw ops1 (cfg0 false false)) in
+    closed (cn g2) = false /\ read_ready (cn g2) = [] /\ est (cn g2) = true /\
+    rd g2 = RRead /\ us g2 = [] /\ op_enabled StepReader g2 = false /\
+    (forall b, op_enabled (StepHs b) g2 = false).
+Proof.
+  exists (ops_established ++ [Env ERecvCNF]), (repeat StepReader 11).
+  vm_compute. repeat split; auto; try lia. all: try (intros []; reflexivity).
+  all: match goal with b : hbranch |- _ => destruct b; reflexivity end.
+Qed.
